@@ -173,10 +173,14 @@ impl FmtAttribute {
 
         let expr = match param.arg {
             // (3) And either exactly one positional argument is specified.
-            Some(parsing::Argument::Integer(_)) | None => (self.args.len() == 1)
+            Some(parsing::Argument::Integer(0)) | None => (self.args.len() == 1)
                 .then(|| self.args.first())
                 .flatten()
                 .map(|a| a.expr.clone()),
+
+            // Any other index doesn't refer to an existing argument, so is left for `format_args!`
+            // to report.
+            Some(parsing::Argument::Integer(_)) => None,
 
             // (4) Or the formatting parameter's name refers to some outer binding.
             Some(parsing::Argument::Identifier(name)) if self.args.is_empty() => {
